@@ -61,10 +61,10 @@ Proof. vm_compute. reflexivity. Qed.
    is a fixpoint of the formatter at token level, in both modes (they differ only in white space).  The
    byte-level step is checked per run (C02's TL cases and this check's FMT2 cases). *)
 Theorem C03_fragment_fixpoint : forall conv e pts,
-  wf_ex conv e = true -> map pk pts = body e ->
+  wf_ex conv e = true -> matches pts (body e) ->
   exists f0, forall fuel, (f0 <= fuel)%nat ->
     match parse_program conv fuel token_EOF pts with
-    | POk r => frag_tokens conv (pr_tree r) = Some (body e)
+    | POk r => frag_tokens conv (pr_tree r) = Some (plain_toks (body e))
     | _ => False
     end.
 Proof. exact fragment_format_fixpoint. Qed.
